@@ -86,6 +86,12 @@ def check_file(tree, rel, enc, counter, vio, rep, what, allow_float=False):
             vio.append({"sig": "C06:sum:" + what, "what": "%s sums to %r" % (rel, s), "replay": rep})
 
 
+def short_table(t, n=6):
+    if isinstance(t, dict):
+        return dict(list(t.items())[:n])
+    return t
+
+
 def same_counter(a, b):
     return list(a.items()) == list(b.items())
 
@@ -94,12 +100,85 @@ def same_lcounter(a, b):
     return list(a.keys()) == list(b.keys()) and all(same_counter(a[k], b[k]) for k in a)
 
 
+def same_table(a, b):
+    """two count_* tables (a Counter, or a dict length -> Counter): same keys in the same order with the same counts"""
+    if type(a) is not type(b) and not (isinstance(a, dict) and isinstance(b, dict)):
+        return False
+    if isinstance(a, dict) and any(isinstance(v, dict) for v in list(a.values()) + list(b.values())):
+        return list(a.keys()) == list(b.keys()) and all(isinstance(a[k], dict) and isinstance(b[k], dict)
+                                                         and same_counter(a[k], b[k]) for k in a)
+    if isinstance(a, dict):
+        return same_counter(a, b)
+    return a == b
+
+
+_tlds = []
+
+
+def tlds():
+    if not _tlds:
+        _tlds.append(T.tld_list())
+    return _tlds[0]
+
+
+# (name in the recount, parser attribute, file, sig detail, needs: which recount flag says the reference is decided)
+EW_TABLES = [("providers", "count_email_providers", "Emails/email_providers.txt", "Emails", "email_exact", False),
+             ("hosts", "count_website_hosts", "Websites/website_hosts.txt", "Websites", "site_exact", False),
+             ("prefixes", "count_website_prefixes", "Websites/website_prefixes.txt", "Websites", "site_exact", False),
+             ("emails", "count_emails", "Emails/full_emails.txt", "Emails", "email_exact", True),
+             ("urls", "count_website_urls", "Websites/website_urls.txt", "Websites", "url_exact", True)]
+
+
+def ew_references(rec, R):
+    """The table each e-mail / website list must have been written from: the recount from the section lists where the
+    segments decide it, else the parser's table as it was when parsing ended, else (no snapshot) the parser's table now.
+    -> {recount name: (counter, 'recount' | 'snapshot' | 'parser')}"""
+    out = {}
+    snap = getattr(rec, "snapshot", None)
+    for name, attr, _, _, flag, _ in EW_TABLES:
+        if R.get(flag, True):
+            out[name] = (R[name], "recount")
+        elif snap is not None and attr in snap:
+            out[name] = (snap[attr], "snapshot")
+        else:
+            out[name] = (getattr(rec.parser, attr), "parser")
+    return out
+
+
 def oracle(rec, rep, stale=()):
     vio = []
     if not rec.ok or rec.parser is None:
         return vio
     P, enc, tree = rec.parser, rec.enc, rec.tree
-    R = T.recount(rec.sections)
+    R = T.recount(rec.sections, tlds())
+    # 0. between the end of parsing (entry of print_statistics) and the end of the run nothing but the Markov
+    #    pseudo-count changes a table: what is saved is what was counted
+    snap = getattr(rec, "snapshot", None)
+    if snap is not None:
+        final = T.parser_counters(P)
+        for name in sorted(set(snap) | set(final)):
+            if name == "count_base_structures":
+                if not same_counter(snap.get(name, Counter()), R["base"]):
+                    vio.append({"sig": "C06:counter-vs-segmentation:base", "what": "count_base_structures at the end of parsing "
+                                "differs from the tally of the supported structures", "replay": rep})
+                continue
+            if name not in snap or name not in final or not same_table(snap[name], final[name]):
+                vio.append({"sig": "C06:counter-changed-after-parsing:" + name[len("count_"):],
+                            "what": "parser.%s was changed between the end of parsing and the end of the run: %r -> %r"
+                            % (name, short_table(snap.get(name)), short_table(final.get(name))), "replay": rep})
+    # 0b. e-mail / website tables against the e-mail / website segments (one provider per E, one host and prefix per W)
+    for name, attr, _, _, flag, _ in EW_TABLES:
+        mem = getattr(P, attr, None)
+        if mem is None:
+            continue
+        n_seg = R["n_email"] if attr.startswith("count_email") else R["n_site"]
+        if sum(mem.values()) != n_seg:
+            vio.append({"sig": "C06:counter-vs-segmentation:" + name, "what": "parser.%s counts %r items, the section lists hold %d "
+                        "such segment(s): %r" % (attr, sum(mem.values()), n_seg, short_table(mem)), "replay": rep})
+        elif R.get(flag, True) and not same_counter(mem, R[name]):
+            vio.append({"sig": "C06:counter-vs-segmentation:" + name, "what": "parser.%s differs from the recount of the section "
+                        "lists: %r vs %r" % (attr, short_table(mem), short_table(R[name])), "replay": rep})
+    refs = ew_references(rec, R)
     # 1. the counters are the tallies of the segmentation
     for name, mem, rc in (("alpha", P.count_alpha, R["alpha"]), ("masks", P.count_alpha_masks, R["masks"]),
                           ("digits", P.count_digits, R["digits"]), ("other", P.count_other, R["other"]),
@@ -132,13 +211,10 @@ def oracle(rec, rep, stale=()):
                         % (folder, names, sorted(d), " (stale files were planted before training)" if stale else ""), "replay": rep})
     check_file(tree, "Years/1.txt", enc, R["years"], vio, rep, "Years")
     check_file(tree, "Context/1.txt", enc, R["context"], vio, rep, "Context")
-    check_file(tree, "Emails/email_providers.txt", enc, P.count_email_providers, vio, rep, "Emails")
-    check_file(tree, "Websites/website_hosts.txt", enc, P.count_website_hosts, vio, rep, "Websites")
-    check_file(tree, "Websites/website_prefixes.txt", enc, P.count_website_prefixes, vio, rep, "Websites")
-    if rec.save_sensitive:
-        check_file(tree, "Emails/full_emails.txt", enc, P.count_emails, vio, rep, "Emails")
-        check_file(tree, "Websites/website_urls.txt", enc, P.count_website_urls, vio, rep, "Websites")
-    else:
+    for name, attr, rel, what, _, sensitive in EW_TABLES:
+        if not sensitive or rec.save_sensitive:
+            check_file(tree, rel, enc, refs[name][0], vio, rep, what)
+    if not rec.save_sensitive:
         for f in ("Emails/full_emails.txt", "Websites/website_urls.txt"):
             if f in tree:
                 vio.append({"sig": "C06:sensitive-saved", "what": "%s written without --save_sensitive" % f, "replay": rep})
@@ -190,10 +266,21 @@ def oracle(rec, rep, stale=()):
 
 def items_by_kind(sections):
     """item sequences per counter, in parse order (for the tally correspondence)"""
-    out = {"alpha": [], "masks": [], "digits": [], "other": [], "keyboard": [], "years": [], "context": []}
+    out = {"alpha": [], "masks": [], "digits": [], "other": [], "keyboard": [], "years": [], "context": [],
+           "emails": [], "providers": [], "urls": [], "hosts": [], "prefixes": []}
     for sl in sections:
         for text, label in sl:
             t = label[0]
+            if t == "E":
+                em = T.lower_in_place(text)
+                out["emails"].append(em)
+                out["providers"].append(em[em.find("@") + 1:])
+            elif t == "W":
+                out["urls"].append(text)
+                hp = T.site_parts(text, tlds())
+                if hp is not None:
+                    out["hosts"].append(hp[0])
+                    out["prefixes"].append(str(hp[1]))
             if t == "A":
                 out["alpha"].append(text.lower())
                 out["masks"].append("".join("U" if ch.isupper() else "L" for ch in text))
@@ -217,10 +304,13 @@ def coq_cases(rec, info, groups):
                       ("Other", P.count_other), ("Keyboard", P.count_keyboard)):
         for k, c in d.items():
             files.append(("%s/%d.txt" % (folder, k), c, enc))
-    files += [("Years/1.txt", P.count_years, enc), ("Context/1.txt", P.count_context_sensitive, enc),
-              ("Emails/email_providers.txt", P.count_email_providers, enc),
-              ("Websites/website_hosts.txt", P.count_website_hosts, enc),
-              ("Websites/website_prefixes.txt", P.count_website_prefixes, enc)]
+    files += [("Years/1.txt", P.count_years, enc), ("Context/1.txt", P.count_context_sensitive, enc)]
+    # the e-mail / website lists: written from the table the segments decide (not from whatever the parser holds at the end)
+    R = T.recount(rec.sections, tlds())
+    refs = ew_references(rec, R)
+    for name, attr, rel, _, _, sensitive in EW_TABLES:
+        if not sensitive or rec.save_sensitive:
+            files.append((rel, refs[name][0], enc))
     for rel, c, e in files:
         if rel not in tree:
             continue
@@ -251,6 +341,9 @@ def coq_cases(rec, info, groups):
     it = items_by_kind(rec.sections)
     for kind, mem in (("years", P.count_years), ("context", P.count_context_sensitive)):
         groups["tally"].append((T.cpair(T.cstrs(it[kind]), T.c_counts(mem)), dict(info, counter=kind)))
+    for name, attr, _, _, flag, _ in EW_TABLES:
+        if R.get(flag, True) and hasattr(P, attr):
+            groups["tally"].append((T.cpair(T.cstrs(it[name]), T.c_counts(getattr(P, attr))), dict(info, counter=name)))
     for kind, mem in (("alpha", P.count_alpha), ("masks", P.count_alpha_masks), ("digits", P.count_digits),
                       ("other", P.count_other), ("keyboard", P.count_keyboard)):
         groups["ltally"].append((T.cpair(T.cstrs(it[kind]), T.c_lcounts(mem)), dict(info, counter=kind)))
@@ -258,9 +351,13 @@ def coq_cases(rec, info, groups):
 
 def gen_case(rng, i):
     enc = T.ENCODINGS[i % len(T.ENCODINGS)]
-    flavour = ["mixed", "ew", "ties", "single", "mixed", "big"][i % 6]
+    flavour = ["mixed", "ew", "ties", "single", "mixed", "big", "ewbig"][i % 7]
     if flavour == "ew":
-        entries = T.gen_entries(rng, enc, n_distinct=rng.randint(4, 9), kinds=["email", "site", "email", "site", "word", "wd"])
+        entries = T.gen_entries(rng, enc, n_distinct=rng.randint(4, 9), kinds=["email", "site", "email2", "site2", "word", "wd"])
+    elif flavour == "ewbig":
+        # e-mails and websites in one list: many providers / hosts (the two pools overlap), repeated, every prefix form
+        entries = T.gen_entries(rng, enc, n_distinct=rng.randint(14, 28), dup_bias=0.6,
+                                kinds=["email2", "site2", "email2", "site2", "email", "site", "wd"])
     elif flavour == "ties":
         entries = [(p, 2) for p, _ in T.gen_entries(rng, enc, n_distinct=rng.randint(4, 8), dup_bias=0)]
     elif flavour == "single":
@@ -297,7 +394,10 @@ def run(ctx):
     vio, samples = [], []
     groups = {"counterfile": [], "structs": [], "tally": [], "ltally": []}
     dist = {"lists": 0, "coverage": {}, "flavour": {}, "encodings": {}, "tied_counts": 0, "single_item_classes": 0,
-            "unsupported_structures": 0, "cli_pairs": 0, "stale_planted": 0, "files_checked": 0, "failed_runs": 0}
+            "unsupported_structures": 0, "cli_pairs": 0, "stale_planted": 0, "files_checked": 0, "failed_runs": 0,
+            "lists_with_email_and_website": 0, "email_segments": 0, "website_segments": 0, "distinct_providers": 0,
+            "distinct_hosts": 0, "lists_site_recount_undecided": 0, "lists_email_recount_undecided": 0,
+            "lists_without_snapshot": 0}
     seen, nontrivial = set(), 0
     code = None
     for i in range(n):
@@ -324,7 +424,15 @@ def run(ctx):
         dist["encodings"][enc] = dist["encodings"].get(enc, 0) + 1
         dist["files_checked"] += len(rec.tree)
         vio += oracle(rec, rep, stale)
-        R = T.recount(rec.sections)
+        R = T.recount(rec.sections, tlds())
+        dist["lists_with_email_and_website"] += bool(R["n_email"] and R["n_site"])
+        dist["email_segments"] += R["n_email"]
+        dist["website_segments"] += R["n_site"]
+        dist["distinct_providers"] += len(R["providers"])
+        dist["distinct_hosts"] += len(R["hosts"])
+        dist["lists_site_recount_undecided"] += bool(R["n_site"] and not R["site_exact"])
+        dist["lists_email_recount_undecided"] += bool(R["n_email"] and not R["email_exact"])
+        dist["lists_without_snapshot"] += getattr(rec, "snapshot", None) is None
         ties = any(len(set(c.values())) < len(c) for d in (R["alpha"], R["digits"], R["other"]) for c in d.values()) \
             or len(set(R["base"].values())) < len(R["base"])
         single = any(len(c) == 1 for d in (R["alpha"], R["digits"], R["other"]) for c in d.values())
@@ -369,9 +477,12 @@ def run(ctx):
         ("ltally", "list str * list (N * list (str * N))", "check_ltally", groups["ltally"])], per=70)
     import writer_tie
     corr = writer_tie.obligations(["struct", "save"]) + corr
-    rule = ("generated lists (as C19; flavours: mixed, e-mail/website dominated, all counts tied, 1-3 passwords, 15-30 passwords) x "
+    rule = ("generated lists (as C19; flavours: mixed, e-mail/website dominated, all counts tied, 1-3 passwords, 15-30 passwords, "
+            "e-mails and websites mixed in one list with many overlapping providers / hosts, every prefix form, sub-domains, paths and trailing mangling) x "
             "coverage in {0, .25, .6, 1, random} x 4 encodings, boundary coverages next to 0 and 1, stale files planted in the length-indexed folders of every third run and in every fixed-name list (Years, Context, Emails, Websites, Grammar, Prince) of every third run = a retrain of an existing rule name; oracle: "
-            "recount from the section lists the real parser produced, every *.txt = [(v, count/total)] in most-common order with "
+            "recount from the section lists the real parser produced (e-mail providers = what follows the first '@' of an E segment, website host / prefix "
+            "re-derived from the W segment text; never the parser's own tables), every count_* table deep-copied at the entry of print_statistics = end of parsing "
+            "and required unchanged at the end of the run, every *.txt = [(v, count/total)] in most-common order with "
             "exact division, M line per coverage, E/W only in raw; determinism: trainer.py twice with different PYTHONHASHSEED; "
             "non-trivial = tied counts, a single-item class or an unsupported structure; distinct by (encoding, coverage, sequence)")
     return {"evaluations": dist["lists"] + 2 * dist["cli_pairs"], "distinct_nontrivial": nontrivial, "rule": rule,
